@@ -157,7 +157,8 @@ class Equal(Logic):
         self.b = b
         self.r = r
 
-        w = a.getWidth()
+        # compare all the bits of both operands (the narrower one is zero extended)
+        w = max(a.getWidth(), b.getWidth())
         
         xor = self.wire('xor', w)
         
